@@ -3,7 +3,7 @@
 # usage: tools/thorough_all.sh [ids...]
 cd "$(dirname "$0")/.." || exit 9
 [ -d .venv ] || ./setup.sh >/dev/null 2>&1
-IDS=${*:-"C01 C02 C03 C04 C05 C10 C11 C12 C13 C14 C15 C16 C17 C18 C20"}
+IDS=${*:-"C01 C02 C03 C04 C05 C06 C08 C10 C11 C12 C13 C14 C15 C16 C17 C18 C20"}
 for id in $IDS; do
   S=$(date +%s)
   ./check $id --tier thorough > thorough_$id.log 2>&1; RC=$?
